@@ -454,6 +454,9 @@ func TestC06InjectServer(t *testing.T) {
 			// progressing prefixes: every prefix of a successful handshake, then each data kind injected
 			var prefixes [][]CSym
 			alpha := srvAlphabet(&cfg, true)
+			if cfg.Transport == "inproc" {
+				alpha = inprocAlphabet(alpha)
+			}
 			enumScripts(cfg, alpha, 3, implNegotiates(&cfg), func(c *SrvCase) {
 				if RunServerModel(c, implNegotiates(&cfg)).Status == "pending" {
 					prefixes = append(prefixes, c.Script)
